@@ -311,7 +311,13 @@ fn pick_op(r: &mut Rng, w: &Weights, m: &BehMix, src: bool) -> Op {
         16 => Op::Relocate,
         17 => Op::Cancel,
         18 => Op::PollAfterReady,
-        19 => Op::Freeze,
+        19 => {
+            if r.chance(1, 3) {
+                Op::FreezeFresh
+            } else {
+                Op::Freeze
+            }
+        }
         _ => Op::Quiesce,
     }
 }
@@ -347,6 +353,7 @@ fn base_config(subject: SubjectKind, workload: Workload) -> Config {
         wakers_first: false,
         shape: 0,
         inexact_iter: false,
+        iter_kind: 0,
         src_hints: false,
         workload: format!("{:?}", workload),
     }
@@ -415,6 +422,7 @@ pub fn generate(workload: Workload, subject: SubjectKind, seed: u64) -> (Config,
     }
     cfg.wakers_first = r.chance(1, 2);
     cfg.inexact_iter = r.chance(1, 3);
+    cfg.iter_kind = if r.chance(1, 4) { r.range(2, 4) as u8 } else { 0 };
     cfg.src_hints = r.chance(1, 2);
     cfg.cap = small_cap(r);
     if cfg.cap == 0 && !matches!(workload, Workload::Cap) {
@@ -776,7 +784,7 @@ pub fn generate(workload: Workload, subject: SubjectKind, seed: u64) -> (Config,
                     b.closed = false;
                     trace.push(Op::Push { beh: b, how: PushHow::Back });
                 }
-                trace.push(Op::Freeze);
+                trace.push(if r.chance(1, 3) { Op::FreezeFresh } else { Op::Freeze });
                 n_ops = r.range(0, 30) as usize;
             }
         }
@@ -865,6 +873,23 @@ pub fn generate(workload: Workload, subject: SubjectKind, seed: u64) -> (Config,
                     }
                     cfg.upstream = up;
                     cfg.up_released = cfg.upstream.len();
+                    if r.chance(1, 3) {
+                        // a wide buffer over an upstream that goes pending almost at once: many free
+                        // slots and nothing to do
+                        cfg.up_released = r.below(4) as usize;
+                        for e in cfg.upstream.iter_mut() {
+                            if let UpEntry::Fut(b) = e {
+                                b.ready = false;
+                            }
+                        }
+                        trace.push(Op::Poll { fresh: false });
+                        trace.push(if r.chance(1, 2) { Op::FreezeFresh } else { Op::Freeze });
+                        trace.push(Op::Release { n: 200, delay: false });
+                        trace.push(Op::Drive { max: 20 });
+                        trace.push(Op::Freeze);
+                        trace.push(Op::Quiesce);
+                        return (cfg, trace);
+                    }
                 }
                 Class::Join => {
                     let mut behs: Vec<Beh> = vec![all; n.min(1100)];
@@ -1075,7 +1100,7 @@ pub fn generate(workload: Workload, subject: SubjectKind, seed: u64) -> (Config,
     let undefined_limit = class == Class::Adapter && cfg.cap == 0 && subject != SubjectKind::FEC;
     if !cancelled && !undefined_limit && r.chance(3, 4) {
         if workload == Workload::StaleBacklog || r.chance(1, 6) {
-            trace.push(Op::Freeze);
+            trace.push(if r.chance(1, 3) { Op::FreezeFresh } else { Op::Freeze });
         }
         trace.push(Op::Quiesce);
         if class == Class::Join && r.chance(1, 2) {
